@@ -640,6 +640,13 @@ Section Codec.
   Definition enum_of (e : enum_ty) (v : pyval) : result pyval :=
     match v with
     | VStr s => if mem_bytes s (members e) then Ok (VEnum e s) else Err ValueError
+    | VEnum e' s =>                      (* Enum(member) is the member itself; a member of another enum is no value *)
+        match e, e' with
+        | ESnapshotTarget, ESnapshotTarget | EReleaseTarget, EReleaseTarget
+        | ERevisionType, ERevisionType | EAuthorityType, EAuthorityType =>
+            if mem_bytes s (members e) then Ok (VEnum e s) else Err ValueError
+        | _, _ => Err ValueError
+        end
     | _ => Err ValueError
     end.
 
@@ -999,6 +1006,11 @@ Definition from_dict_old_x (oid origin_id : result bytes) :=
   from_dict_old (fun c _ => match c with cOrigin => origin_id | _ => oid end) swhid_str_c swhid_parse_c dateparse_none.
 Definition fd_BaseContent_x (oid : result bytes) :=
   fd_BaseContent (fun _ _ => oid) dateparse_none.
+(* the same with dateutil's answer for the textual ctime of the case given as an oracle *)
+Definition from_dict_xd (oid origin_id : result bytes) (dp : result pyval) :=
+  from_dict (fun c _ => match c with cOrigin => origin_id | _ => oid end) swhid_str_c swhid_parse_c (fun _ => dp).
+Definition fd_BaseContent_xd (oid : result bytes) (dp : result pyval) :=
+  fd_BaseContent (fun _ _ => oid) (fun _ => dp).
 
 (* ------------------------------------------------------------------ examples *)
 
